@@ -388,8 +388,121 @@ def _row_key(r):
   return tuple(sorted((k, v / s) for k, v in cs.items()))
 
 
+def _tuples(x):
+  return [tuple(t) for t in (x or [])]
+
+
+_CONV_SCRIPT = """
+import numpy as np
+spec = args[0]
+ll = mod('lattice_lib')
+A = np.array(spec['rows'], dtype='float64')            # feasible set: A x <= 0
+n = A.shape[1]
+kw = spec['kw']
+tup = lambda xs: [tuple(x) for x in xs] if xs else None
+rng = np.random.RandomState(17)
+
+def reference(x0, sweeps=4000):
+  # independent Dykstra over single half-spaces, float64
+  x = x0.copy(); inc = np.zeros((A.shape[0], n))
+  nrm = (A * A).sum(axis=1)
+  for _ in range(sweeps):
+    for k in range(A.shape[0]):
+      y = x - inc[k]
+      v = A[k] @ y
+      xn = y - (max(v, 0.0) / nrm[k]) * A[k]
+      inc[k] = xn - y
+      x = xn
+  return x
+
+def real(x0, iters):
+  w = tf.constant(x0.reshape(-1, 1), dtype='float32')
+  out = ll.project_by_dykstra(w, kw['sizes'], monotonicities=kw.get('monos'), unimodalities=kw.get('unis'),
+                              edgeworth_trusts=tup(kw.get('ew')), trapezoid_trusts=tup(kw.get('tz')),
+                              monotonic_dominances=tup(kw.get('mono_dom')), range_dominances=tup(kw.get('range_dom')),
+                              joint_monotonicities=tup(kw.get('joint_mono')), num_iterations=iters)
+  return out.numpy().reshape(-1).astype('float64')
+
+res = []
+kernels = [rng.standard_normal(n) * s for s in (1.0, 1.0, 3.0)] + [np.arange(n)[::-1].astype('float64'),
+                                                                   np.tile([1.0, -1.0], n)[:n]]
+for x0 in kernels:
+  ref = reference(x0)
+  viol = []
+  dist = []
+  for iters in spec['iterations']:
+    x = real(x0, iters)
+    viol.append(float(max(0.0, np.max(A @ x))))
+    dist.append(float(np.linalg.norm(x - ref)))
+  again = real(real(x0, spec['iterations'][-1]), spec['iterations'][-1])
+  res.append({'kernel': x0.tolist(), 'violation': viol, 'distance_to_nearest': dist, 'reference': ref.tolist(),
+              'reference_violation': float(max(0.0, np.max(A @ ref))),
+              'moved_by_projecting_again': float(np.max(np.abs(again - real(x0, spec['iterations'][-1]))))})
+result = res
+"""
+
+
+class ConvergenceCase(Case):
+  """BOUNDED stand-in (labelled, never counted as proved) for the limit clauses: on a handful of kernels
+  per configuration the real project_by_dykstra is run natively with 1..512 iterations; the largest
+  violation must fall below 1e-3 * scale, the result must approach the nearest feasible kernel computed
+  by an independent float64 Dykstra over the single half-spaces of the specification, and projecting
+  the converged result again must not move it."""
+  contract_key = None
+  xcheck = False
+
+  def replay(self, cfg, model, g):
+    # the clause was evaluated on the real code; its name carries the failing kernel
+    return {'failing': [g['name']] if ' for kernel ' in g['name'] else [], 'note': 'evaluated natively in the check itself'}
+
+  def body(self, cfg, c):
+    from vt import prop
+    sizes = cfg['sizes']
+    n = int(np.prod(sizes))
+    K = tfc.sym([n, 1], 'k')
+    ids = {}
+    for i in range(n):
+      (m, _), = P.lift(K.a[i, 0]).t.items()
+      ids[m[0][0]] = i
+    rows = []
+    for nm, b in CL.all_family_clauses(K, sizes, cfg.get('monos'), cfg.get('unis'), _tuples(cfg.get('ew')), _tuples(cfg.get('tz')),
+                                       _tuples(cfg.get('mono_dom')), _tuples(cfg.get('range_dom')), _tuples(cfg.get('joint_mono'))):
+      if b.kind != 'le':
+        raise ValueError('specification row is not of the form p <= 0: %s' % nm)
+      row = [0.0] * n
+      for mono, coef in b.args[0].t.items():
+        if len(mono) != 1 or mono[0][1] != 1:
+          raise ValueError('specification row is not linear homogeneous: %s' % nm)
+        row[ids[mono[0][0]]] = float(coef)
+      rows.append(row)
+    iters = [1, 8, 64, 512]
+    res = prop.run_native([{'kind': 'script', 'code': _CONV_SCRIPT, 'floatx': 'float32',
+                            'args': [{'rows': rows, 'kw': cfg, 'iterations': iters}], 'kwargs': {}}])[0]
+    if 'error' in res:
+      raise RuntimeError('native convergence run failed: ' + res['error'] + res.get('trace', ''))
+    nearest = not cfg.get('range_dom')     # the property claims "nearest" for all families but range dominance / joint unimodality
+    cl = []
+
+    def add(name, ok, r, detail):
+      # the evaluation itself ran on the real code: a failing clause carries its input
+      cl.append((name if ok else '%s: %s for kernel %s' % (name, detail, [round(v, 4) for v in r['kernel']]), B.const(bool(ok))))
+    for k, r in enumerate(res['ok']):
+      scale = 1.0 + max(abs(v) for v in r['kernel'])
+      add('bounded:reference-is-feasible[kernel %d]' % k, r['reference_violation'] <= 1e-6 * scale, r, 'reference violation %.3g' % r['reference_violation'])
+      add('bounded:violation-after-512-iterations-is-small[kernel %d]' % k, r['violation'][-1] <= 1e-3 * scale, r,
+          'violations after %s iterations: %s' % (iters, ['%.3g' % v for v in r['violation']]))
+      add('bounded:violation-does-not-grow-from-64-to-512[kernel %d]' % k, r['violation'][-1] <= r['violation'][-2] + 1e-5 * scale, r,
+          'violations %s' % ['%.3g' % v for v in r['violation']])
+      if nearest:
+        add('bounded:result-approaches-the-nearest-feasible-kernel[kernel %d]' % k, r['distance_to_nearest'][-1] <= 5e-3 * scale, r,
+            'distance %.3g to the nearest feasible kernel %s' % (r['distance_to_nearest'][-1], [round(v, 4) for v in r['reference']]))
+      add('bounded:projecting-the-converged-result-again-does-not-move-it[kernel %d]' % k, r['moved_by_projecting_again'] <= 5e-3 * scale, r,
+          'moved by %.3g' % r['moved_by_projecting_again'])
+    return cl
+
+
 CASES = {'pwl_recurrence': PwlRecurrenceCase(), 'group': GroupCase(), 'pwl_group': PwlGroupCase(), 'fixpoint': FixpointCase(),
-         'pwl_fixpoint': PwlFixpointCase(), 'recurrence': RecurrenceCase()}
+         'pwl_fixpoint': PwlFixpointCase(), 'recurrence': RecurrenceCase(), 'convergence': ConvergenceCase()}
 
 
 FAMILY_CFGS = [
@@ -448,6 +561,8 @@ def configs(tier, rng):
           jobs.append(('group', dict(cfg, family='range_dominance', pair=p, group=list(g))))
       jobs.append(('fixpoint', cfg))
       jobs.append(('recurrence', cfg))
+      if units == 1 and (tier != 'quick' or len(sizes) <= 2):
+        jobs.append(('convergence', dict(base)))
   jobs.append(('fixpoint', dict(sizes=[3, 3], units=1, joint_uni=[[[0, 1], 'valley']])))
   jobs.append(('fixpoint', dict(sizes=[3], units=2, joint_uni=[[[0], 'peak']])))
   for nh in (1, 2, 3, 4):
